@@ -4,6 +4,7 @@ import json, sys, subprocess, os
 pid = sys.argv[1]
 n = sys.argv[2] if len(sys.argv) > 2 else '3'
 rnd = sys.argv[3] if len(sys.argv) > 3 else ''
+focus = sys.argv[4] if len(sys.argv) > 4 else ''  # comma-separated anchor files to concentrate on
 rec = None
 for l in open('/verif/properties.jsonl'):
     if l.strip():
@@ -25,7 +26,7 @@ Quantified over: {rec['quantifier']['text']}
 Why the existing tests cannot settle it: {rec['why_tests_cant']}
 Code it is anchored in: {', '.join(rec['anchors']['files'])}
 
-Your task: produce {n} DIFFERENT, independent, realistic changes to gonum's source (non-test .go or .s files), each of which BREAKS this property while the code still compiles and gonum's EXISTING tests still pass. Think of plausible maintenance mistakes (an off-by-one in a boundary or index computation, a wrong flag/branch in a rarely used combination, a condition slightly too weak or too strong, a state update forgotten on one path, a fast path that is wrong for one operand kind, a check performed after instead of before a write, shared scratch state, an ordering mistake between two cooperating sites that each look fine alone). Each change must need something SPECIFIC to manifest — a particular shape/stride/flag combination, an unusual but legal input, a multi-step sequence of operations, a particular interleaving or timing, a fault at a particular point — not something ordinary use or the existing tests expose at once. Spread the changes over different files/mechanisms of the property. Keep each change small (a few lines). Avoid the most obvious candidates (a plain wrong constant in the main path): prefer rarely exercised code paths (unusual flag or kind combinations, boundary sizes, error and early-return paths, second and later calls on a reused object, inputs with exact ties, zeros, negative or extreme values, destination arguments in unusual states) and defects that need two cooperating conditions. Do NOT use `git stash` (it is shared between worktrees): save with `git diff > patch.diff` and undo with `git checkout -- .`.
+Your task: produce {n} DIFFERENT, independent, realistic changes to gonum's source (non-test .go or .s files), each of which BREAKS this property while the code still compiles and gonum's EXISTING tests still pass. Think of plausible maintenance mistakes (an off-by-one in a boundary or index computation, a wrong flag/branch in a rarely used combination, a condition slightly too weak or too strong, a state update forgotten on one path, a fast path that is wrong for one operand kind, a check performed after instead of before a write, shared scratch state, an ordering mistake between two cooperating sites that each look fine alone). Each change must need something SPECIFIC to manifest — a particular shape/stride/flag combination, an unusual but legal input, a multi-step sequence of operations, a particular interleaving or timing, a fault at a particular point — not something ordinary use or the existing tests expose at once. Spread the changes over different files/mechanisms of the property. Keep each change small (a few lines). Avoid the most obvious candidates (a plain wrong constant in the main path): prefer rarely exercised code paths (unusual flag or kind combinations, boundary sizes, error and early-return paths, second and later calls on a reused object, inputs with exact ties, zeros, negative or extreme values, destination arguments in unusual states) and defects that need two cooperating conditions. {('Concentrate on these parts of the anchored code (each change must touch one of them or a file it directly calls into; use different ones for different changes): ' + focus.replace(',', ', ') + '. ') if focus else ''}Do NOT use `git stash` (it is shared between worktrees): save with `git diff > patch.diff` and undo with `git checkout -- .`.
 
 For each change k = 1..{n} deliver a directory {out}/k/ containing:
 - patch.diff — `git diff` of the change against HEAD (applies with `git apply` at the repository root; only the property-breaking change, nothing else);
